@@ -4,11 +4,13 @@
    formulas are covariant under rotation of the structure, mirroring, and drawing a bar from
    its other end.  Translation: none of the kernels takes a coordinate (stiff_gen, lump_gen,
    recover_gen depend on length, direction cosines and sub-span only), so translation
-   invariance holds by the very type of the model.  The structure-level statement (whole
-   pipeline) is decided per run by the metamorphic oracle of the check, see DESIGN.md. *)
+   invariance holds by the very type of the model.  Whole bars of the slicing model: moved by any
+   translation, and (loads in the bar's own axes) turned by any angle, a bar is cut at the same
+   positions and carries the same nodal loads (Proofs/UnitsBar.v).  The statement for the solved
+   structure is decided per run by the metamorphic oracle of the check, see DESIGN.md. *)
 From Coq Require Import ZArith QArith Qabs Reals List Bool Arith.
 From Inkfem Require Import Num.NumOps Gen.GenStiffness Gen.GenLoads Gen.GenRecover Spec.Stiffness
-  Model.Types Proofs.StiffnessQ Proofs.PlacementProofs.
+  Model.Types Model.Slice Model.Loads Spec.Resultant Proofs.StiffnessQ Proofs.PlacementProofs Proofs.UnitsBar.
 Import ListNotations.
 
 Theorem C07_stiffness_rotation_covariant_R : forall (L c s t1 t2 E A I : R), (L * (t2 - t1) <> 0 ->
@@ -104,3 +106,28 @@ Theorem C07_stiffness_reversal_Q : forall (L c s t1 t2 E A I : Q), (~ L * (t2 - 
       (swap_vec (mv (stiff_gen (O:=QOps) L c s t1 t2 E A I) d)))%Q.
 Proof. exact stiff_reversal_Q. Qed.
 Print Assumptions C07_stiffness_reversal_Q.
+
+(* whole bars of the slicing model (Model/Slice.v + Model/Loads.v, tied to preprocess/*.go by stage B) *)
+Theorem C07_a_bar_moved_elsewhere_is_sliced_alike_with_the_same_nodal_loads : forall (dx dy : Q) (w : bool) (b : bar Q),
+  Forall2 (fun n n' => pn_t n' = pn_t n /\ (pn_x n' == pn_x n + dx)%Q /\ (pn_y n' == pn_y n + dy)%Q /\
+                       tor_eq (pn_ext n') (pn_ext n) /\ tor_eq (pn_left n') (pn_left n) /\ tor_eq (pn_right n') (pn_right n))
+          (preprocess_bar w b) (preprocess_bar w (moved_bar dx dy b)).
+Proof. exact moved_bar_is_sliced_alike. Qed.
+Print Assumptions C07_a_bar_moved_elsewhere_is_sliced_alike_with_the_same_nodal_loads.
+
+Theorem C07_a_bar_turned_with_its_loads_is_sliced_alike_with_the_same_nodal_loads : forall (cr sr : Q) (b : bar Q),
+  (cr * cr + sr * sr == 1)%Q -> own_axes_only b = true ->
+  Forall2 (fun n n' => pn_t n' = pn_t n /\ (pn_x n' == cr * pn_x n - sr * pn_y n)%Q /\ (pn_y n' == sr * pn_x n + cr * pn_y n)%Q /\
+                       tor_eq (pn_ext n') (pn_ext n) /\ tor_eq (pn_left n') (pn_left n) /\ tor_eq (pn_right n') (pn_right n))
+          (preprocess_bar false b) (preprocess_bar false (turned_bar cr sr b)).
+Proof. exact turned_bar_is_sliced_alike. Qed.
+Print Assumptions C07_a_bar_turned_with_its_loads_is_sliced_alike_with_the_same_nodal_loads.
+
+(* not vacuous: a bar with loads in its own axes, turned by the 3-4-5 angle *)
+Definition c07_bar : bar Q := {| b_n1 := 0; b_n2 := 1; b_l1 := rigid; b_l2 := rigid; b_x1 := 10; b_y1 := 20; b_x2 := 310; b_y2 := 420;
+  b_L := 500; b_c := 3 # 5; b_s := 4 # 5; b_E := 1; b_A := 1; b_I := 1; b_S := 1; b_rho := 0;
+  b_cl := [ {| cl_term := FX; cl_local := true; cl_t := 1 # 3; cl_v := 70 # 1 |} ];
+  b_dl := [ {| dl_term := FY; dl_local := true; dl_t0 := 1 # 4; dl_v0 := - (2 # 1); dl_t1 := 3 # 4; dl_v1 := - (5 # 1) |} ] |}.
+Example C07_bar_example : own_axes_only c07_bar = true /\ ((3 # 5) * (3 # 5) + (4 # 5) * (4 # 5) == 1)%Q /\
+  length (preprocess_bar false (turned_bar (3 # 5) (4 # 5) c07_bar)) = 14%nat.
+Proof. split; [reflexivity|]. split; [reflexivity|]. vm_compute. reflexivity. Qed.
